@@ -158,9 +158,10 @@ func init() {
 		Packages: []string{"pkg/aa"},
 		Generate: func(env *Env) *Gen {
 			g := genStandard(env, "C11", false, nil)
+			g.Static = append(g.Static, lemmaResults(env, []string{"SortCanonical.lean"})...)
 			g.Unverified = []string{
 				"behaviour of slices.SortFunc itself (trusted: permutation; sorted w.r.t. a comparator that satisfies the four laws)",
-				"the step from the order laws to 'sorting is idempotent and permutation independent' is the Lean lemma sorted_perm_unique (checked in the thorough tier)",
+				"the step from the order laws to 'sorting is idempotent and independent of the input order' is the Lean lemma sorted_perm_unique / sort_idempotent / sort_perm_invariant (lemmas/SortCanonical.lean: compiled in the thorough tier, digest-checked in the quick tier), given that slices.SortFunc returns a sorted permutation",
 				"Profile and Hat blocks are exempt from the zero-implies-identical law (sibling blocks are required to have distinct names)",
 			}
 			g.Assumptions = []string{
